@@ -3,6 +3,7 @@ package props
 import (
 	"go/ast"
 	"go/constant"
+	"go/token"
 	"go/types"
 	"sort"
 	"strings"
@@ -10,6 +11,7 @@ import (
 	"golang.org/x/tools/go/packages"
 
 	"verif/checker/internal/core"
+	"verif/checker/internal/flow"
 )
 
 func init() {
@@ -32,6 +34,8 @@ func init() {
 			{Name: "binary-operands-swapped", File: e, Old: "\tcompileExpr(ctx, v.X)\n\tcompileExpr(ctx, v.Y)\n\tctx.cb.BinaryOp(gotoken.Token(v.Op), v)", New: "\tcompileExpr(ctx, v.Y)\n\tcompileExpr(ctx, v.X)\n\tctx.cb.BinaryOp(gotoken.Token(v.Op), v)", Expect: "operand-order/compileBinaryExpr"},
 			{Name: "slice-high-low-swapped", File: e, Old: "\tcompileExprOrNone(ctx, v.Low)\n\tcompileExprOrNone(ctx, v.High)\n", New: "\tcompileExprOrNone(ctx, v.High)\n\tcompileExprOrNone(ctx, v.Low)\n", Expect: "operand-order/compileSliceExpr"},
 			{Name: "comma-ok-leaks-to-operand", File: e, Old: "\tcompileExpr(ctx, v.X, xFlags...)\n", New: "\tcompileExpr(ctx, v.X, inFlags...)\n", Expect: "two-value-scope/compileIndexExpr"},
+			{Name: "types-resolved-package-first", File: "cl/func_type_and_var.go", Old: "\tat, o := ctx.cb.Scope().LookupParent(name, token.NoPos)\n\tif o != nil && at != types.Universe {\n\t\tif debugLookup {\n\t\t\tlog.Println(\"==> LookupParent\", name, \"=>\", o)\n\t\t}\n\t\treturn o, nil\n\t}\n\tif ctx.loadSymbol(name) {", New: "\tif ctx.loadSymbol(name) {\n\t\tif v := ctx.pkg.Types.Scope().Lookup(name); v != nil {\n\t\t\treturn v, nil\n\t\t}\n\t}\n\tat, o := ctx.cb.Scope().LookupParent(name, token.NoPos)\n\tif o != nil && at != types.Universe {\n\t\tif debugLookup {\n\t\t\tlog.Println(\"==> LookupParent\", name, \"=>\", o)\n\t\t}\n\t\treturn o, nil\n\t}\n\tif ctx.loadSymbol(name) {", Expect: "resolution-order/lookupType"},
+			{Name: "dup-case-bools", File: "cl/stmt.go", Old: "\tswitch val.Kind() {\n\tcase constant.Int:\n\t\tif x, ok := constant.Int64Val(val); ok {", New: "\tswitch val.Kind() {\n\tcase constant.Bool:\n\t\treturn constant.BoolVal(val)\n\tcase constant.Int:\n\t\tif x, ok := constant.Int64Val(val); ok {", Expect: "sibling/goVal"},
 			{Name: "token-renumbered", File: "token/token.go", Old: "\tADD // +\n\tSUB // -\n", New: "\tSUB // -\n\tADD // +\n", Expect: "token-value/ADD"},
 		},
 	})
@@ -68,7 +72,7 @@ var c01Order = map[string][]string{
 }
 
 func runC01(c *core.Check) {
-	prog := c.Load("./cl", "./ast", "./token", "go/ast", "go/token")
+	prog := c.Load("./cl", "./ast", "./token", "go/ast", "go/token", "go/types")
 	pk, apk, gapk, tpk, gtpk := prog.Pkg("./cl"), prog.Pkg("./ast"), prog.Pkg("go/ast"), prog.Pkg("./token"), prog.Pkg("go/token")
 	if pk == nil || apk == nil || gapk == nil || tpk == nil || gtpk == nil {
 		return
@@ -268,6 +272,73 @@ func runC01(c *core.Check) {
 		c.Decide(ok, "operand-order", fn, fd.Pos(), strings.Join(want, " → "), "cl."+fn+": "+detail+" — the operands of a non-commutative operation (or the order of their side effects) are swapped")
 	}
 	c.Floor("operand-order", 7)
+
+	// ---------- (3b) name resolution: the scope chain is consulted before the package-level symbol loaders
+	// (Go: the innermost declaration wins; a function-local type or variable shadows a package-level one)
+	nRes := 0
+	for _, fd := range core.AllFuncDecls(pk) {
+		if fd.Body == nil {
+			continue
+		}
+		const (
+			bScoped flow.State = 1 << iota
+			bLoadedFirst
+		)
+		calls := map[string]bool{}
+		ast.Inspect(fd.Body, func(n ast.Node) bool {
+			if call, ok := n.(*ast.CallExpr); ok {
+				if sel, ok := call.Fun.(*ast.SelectorExpr); ok {
+					calls[sel.Sel.Name] = true
+				}
+			}
+			return true
+		})
+		if !calls["LookupParent"] || !calls["loadSymbol"] {
+			continue
+		}
+		nRes++
+		p := &flow.Problem{Body: fd.Body, Info: info}
+		p.Node = func(n ast.Node, st flow.State, record bool) flow.State {
+			for _, call := range flow.Calls(n) {
+				sel, ok := call.Fun.(*ast.SelectorExpr)
+				if !ok {
+					continue
+				}
+				switch sel.Sel.Name {
+				case "LookupParent":
+					st |= bScoped
+				case "loadSymbol":
+					if st&bScoped == 0 {
+						st |= bLoadedFirst
+					}
+				}
+			}
+			return st
+		}
+		res := flow.Solve(p)
+		bad := token.NoPos
+		for _, ex := range res.Exits {
+			if ex.State&bLoadedFirst != 0 {
+				bad = ex.Pos
+			}
+		}
+		c.Decide(!bad.IsValid() && len(res.Exits) > 0, "resolution-order", core.FuncName(fd), fd.Pos(), "the scope chain (LookupParent) is consulted before the package-level loaders (loadSymbol)",
+			"cl."+core.FuncName(fd)+" asks the package-level symbol loaders before walking the scope chain: a function-local declaration no longer shadows a package-level one of the same name (Go resolves to the innermost scope)")
+	}
+	c.Floor("resolution-order", 2)
+
+	// ---------- (3c) duplicate switch cases are rejected for exactly the constants Go rejects: goVal is go/types' goVal
+	if gtypes := prog.Pkg("go/types"); gtypes != nil {
+		xf, gf := core.FindFuncDecl(pk, "goVal"), core.FindFuncDecl(gtypes, "goVal")
+		if xf == nil || gf == nil {
+			c.Bad("anchor", "goVal", 0, "cl.goVal or go/types.goVal not found")
+		} else {
+			c.Decide(normFunc(pk, xf) == normFunc(gtypes, gf), "sibling", "goVal", xf.Pos(), "alpha-equivalent to go/types.goVal",
+				"cl.goVal (the key used to detect duplicate switch cases) is no longer the routine go/types uses: XGo now rejects switches Go accepts (or accepts duplicates Go rejects) — gc only checks duplicates for integer, floating-point and string constants")
+		}
+	} else {
+		c.Bad("anchor", "go/types", 0, "package not loaded")
+	}
 
 	// ---------- (4) the comma-ok request applies to one node only
 	// `v, ok := x[i]` / `x.(T)` / `<-ch` hand a two-value flag to the routine that lowers that node; a routine that
